@@ -97,6 +97,17 @@ Definition union_supports (l : list iset) : iset :=
 Definition map_members (f : member -> member) (es : list entry) : list entry :=
   map (fun e => (e_key e, (e_tag e, f (e_mem e)))) es.
 
+(* the support the group gets: the one given, else the union of the (key-sorted) members' supports;
+   None = RuntimeError "union of time supports is empty" *)
+Definition chosen_support (sup : option iset) (es : list entry) : option iset :=
+  match sup with
+  | Some s => Some s
+  | None => match union_supports (map (fun e => m_sup (e_mem e)) es) with [] => None | u => Some u end
+  end.
+
+Definition conv_entry (sup : option iset) (d : Z * (Z * rawmember)) : entry :=
+  (fst d, (fst (snd d), to_member sup (snd (snd d)))).
+
 (* TsGroup(data, time_support = sup, bypass = ..., metadata = tags indexed by key) ; None = an exception *)
 Definition mk_group (data : list (rawkey * (Z * rawmember))) (sup : option iset) (bypass hastag : bool)
   : option group :=
@@ -105,15 +116,8 @@ Definition mk_group (data : list (rawkey * (Z * rawmember))) (sup : option iset)
   | Some kd =>
       if negb (nodupb (map fst kd)) then None
       else
-        let es := sort_entries (map (fun d => (fst d, (fst (snd d), to_member sup (snd (snd d))))) kd) in
-        let s := match sup with
-                 | Some s => Some s
-                 | None => match union_supports (map (fun e => m_sup (e_mem e)) es) with
-                           | [] => None          (* RuntimeError: union of time supports is empty *)
-                           | u => Some u
-                           end
-                 end in
-        match s with
+        let es := sort_entries (map (conv_entry sup) kd) in
+        match chosen_support sup es with
         | None => None
         | Some s => Some (if bypass then es else map_members (fun m => ts_restrict m s) es, (s, hastag))
         end
